@@ -1,6 +1,104 @@
-import MotoModel.Model.Tape
-import MotoModel.Spec.K7
+/-
+  C09 — tape creation is all-or-nothing and never over- or under-estimates capacity.
+-/
+import MotoModel.Props.C03
 namespace Moto.C09
 open Moto Moto.Tape
-theorem placeholder : buildEmpty 255 = [255, 2, 0] := rfl
+
+theorem marker_length : Gen.Tape.writeMarker.length = 18 := by decide
+theorem tape_size : Gen.Tape.tapeSize = 21504 := rfl
+
+theorem frame_length (ty : Nat) (p : Bytes) : (Spec.K7.frame ty p).length = p.length + 3 := by
+  simp [Spec.K7.frame]
+
+theorem totalLen_frames (bs : List (Nat × Bytes)) :
+    totalLen (bs.map (fun b => Spec.K7.frame b.1 b.2)) = (bs.map (fun b => 21 + b.2.length)).sum := by
+  induction bs with
+  | nil => rfl
+  | cons b bs ih =>
+    simp only [List.map_cons, totalLen_cons, List.sum_cons, ih, frame_length, marker_length]
+    omega
+
+/-- bytes needed on the tape = the property's count: 35 per leader, 21 per data / end block
+    plus the payload -/
+theorem needed_eq_encSize (w : World) (srcs : List Str) :
+    totalLen (allRaw w srcs) = Spec.K7.encSize (srcs.map (C03.specFile w)) := by
+  rw [C03.allRaw_eq_frames, totalLen_frames]
+  induction srcs with
+  | nil => rfl
+  | cons s rest ih =>
+    simp only [List.map_cons, List.flatMap_cons, List.map_append, List.sum_append, ih, Spec.K7.encSize, List.sum_cons]
+    congr 1
+    simp only [Spec.K7.fileBlocks, List.map_cons, List.map_append, List.map_map, List.sum_cons, List.sum_append,
+      List.map_nil, List.sum_nil, List.length_nil]
+    have : (Spec.K7.leaderPayload (C03.specFile w s)).length = 14 := (C03.leader_fields _).2.2
+    rw [this]
+    have e : ((fun b : Nat × Bytes => 21 + b.2.length) ∘ fun c => (1, c)) = fun c : Bytes => 21 + c.length := by
+      funext c; rfl
+    rw [e]
+    omega
+
+/-- **C09 (accepted)**: every list shorter than the tape is accepted: status 0, one write — the
+    complete archive (C03's encoding of every source), 21504 bytes. -/
+theorem accepted (w : World) (verbose : Bool) (archive : Str) (srcs : List Str) (hr : AllReadable w srcs)
+    (hfit : Spec.K7.encSize (srcs.map (C03.specFile w)) < 21504) :
+    (inject w verbose archive srcs).status = .ret 0
+      ∧ (inject w verbose archive srcs).writes = [(archive, Spec.K7.tape (srcs.map (C03.specFile w)))]
+      ∧ (inject w verbose archive srcs).mkdirs = [] := by
+  have hfit' : totalLen (allRaw w srcs) < Gen.Tape.tapeSize := by rw [needed_eq_encSize]; exact hfit
+  refine ⟨?_, (C03.created_tape_is_k7 w verbose archive srcs hr hfit').1, ?_⟩
+  · obtain ⟨t', e, _⟩ := injectLoop_ok w srcs blank { verbose := verbose } [] [] hr written_blank (by simpa using hfit')
+    simp [inject, e]
+  · obtain ⟨t', e, _⟩ := injectLoop_ok w srcs blank { verbose := verbose } [] [] hr written_blank (by simpa using hfit')
+    simp [inject, e]
+
+/-- **C09 (refused)**: every list at least as long as the tape is refused with status 1 and the
+    diagnostic, and nothing at all is written (a file already at the target path keeps its bytes). -/
+theorem refused (w : World) (verbose : Bool) (archive : Str) (srcs : List Str) (hr : AllReadable w srcs)
+    (hbig : ¬ Spec.K7.encSize (srcs.map (C03.specFile w)) < 21504) :
+    (inject w verbose archive srcs).status = .ret 1
+      ∧ (inject w verbose archive srcs).writes = []
+      ∧ (inject w verbose archive srcs).mkdirs = []
+      ∧ (inject w verbose archive srcs).out.getLast? = some tooMuch := by
+  have hne : srcs ≠ [] := by
+    intro h; subst h; simp [Spec.K7.encSize] at hbig
+  have hbig' : ¬ (([] : Bytes).length + totalLen (allRaw w srcs) < Gen.Tape.tapeSize) := by
+    rw [needed_eq_encSize, tape_size]; simpa using hbig
+  obtain ⟨out', e⟩ := injectLoop_overflow w srcs blank { verbose := verbose } [] [] hr written_blank hne hbig'
+  simp [inject, e]
+
+/-- **C09 (capacity is exact)** -/
+theorem accepted_iff (w : World) (verbose : Bool) (archive : Str) (srcs : List Str) (hr : AllReadable w srcs) :
+    (inject w verbose archive srcs).writes ≠ [] ↔ Spec.K7.encSize (srcs.map (C03.specFile w)) < 21504 := by
+  constructor
+  · intro h
+    apply Classical.byContradiction
+    intro hn
+    exact h (refused w verbose archive srcs hr hn).2.1
+  · intro h
+    rw [(accepted w verbose archive srcs hr h).2.1]; simp
+
+/-- **C09 (missing source)**: an unreadable source at any position: non-zero outcome, nothing written. -/
+theorem missing_source (w : World) (verbose : Bool) (archive : Str) (srcs : List Str)
+    (hm : ∃ s ∈ srcs, w (classify s).2 = none) :
+    (inject w verbose archive srcs).status ≠ .ret 0 ∧ (inject w verbose archive srcs).writes = [] := by
+  have := injectLoop_missing w srcs blank { verbose := verbose } [] hm
+  unfold inject
+  generalize injectLoop w blank { verbose := verbose } [] srcs = r at this ⊢
+  obtain ⟨st, out, t⟩ := r
+  simp only at this
+  obtain ⟨h1, h2⟩ := this
+  subst h1
+  exact ⟨h2, rfl⟩
+
+/-- never a truncated or oversized tape: whatever happens, at most one write, of exactly 21504 bytes -/
+theorem never_partial (w : World) (verbose : Bool) (archive : Str) (srcs : List Str) (hr : AllReadable w srcs) :
+    (inject w verbose archive srcs).writes = [] ∨
+    ∃ tape, (inject w verbose archive srcs).writes = [(archive, tape)] ∧ tape.length = 21504 := by
+  by_cases h : Spec.K7.encSize (srcs.map (C03.specFile w)) < 21504
+  · right
+    have hfit' : totalLen (allRaw w srcs) < Gen.Tape.tapeSize := by rw [needed_eq_encSize]; exact h
+    exact ⟨_, C03.created_tape_is_k7 w verbose archive srcs hr hfit'⟩
+  · left; exact (refused w verbose archive srcs hr h).2.1
+
 end Moto.C09
